@@ -5,20 +5,23 @@ import PP.Spec.CheckLay
 namespace PP
 open Sexp
 
+/-- a character travels as `cp * 8 + printable + 2*word + 4*space` -/
+def decodePChar (n : Nat) : PChar :=
+  { cp := n / 8, printable := n % 2 == 1, word := (n / 2) % 2 == 1, space := (n / 4) % 2 == 1 }
+
+def encodePChar (c : PChar) : Nat :=
+  c.cp * 8 + (if c.printable then 1 else 0) + (if c.word then 2 else 0) + (if c.space then 4 else 0)
+
 def decodeAnn : Sexp → Option Ann
   | .list [.atom "tok", n] => do some (.tok (← nat? n))
-  | .list (.atom "cmt" :: cs) => do some (.comment (← nats? cs))
+  | .list (.atom "cmt" :: cs) => do some (.comment ((← nats? cs).map decodePChar))
   | .list [.atom "oth", n] => do some (.other (← nat? n))
   | _ => none
 
 def encodeAnn : Ann → Sexp
   | .tok n => .list [sym "tok", ofNat n]
-  | .comment s => ofStr "cmt" s
+  | .comment s => ofStr "cmt" (s.map encodePChar)
   | .other n => .list [sym "oth", ofNat n]
-
-/-- a character travels as `cp * 8 + printable + 2*word + 4*space` -/
-def decodePChar (n : Nat) : PChar :=
-  { cp := n / 8, printable := n % 2 == 1, word := (n / 2) % 2 == 1, space := (n / 4) % 2 == 1 }
 
 def decodeStrSpec : List Sexp → Option StrSpec
   | [isB, strat, ind, slash, cls, .list chars] => do
